@@ -112,6 +112,11 @@ func (e *Exec) freshStr(name string, max int) Str {
 func (e *Exec) keccakTerm(arr, off, n *Term, max int) *Term {
 	tb := e.tb
 	mk := func(k int) *Term {
+		if k == 0 {
+			// the hash of the empty string is a constant the code compares against (emptyCodeHash)
+			v, _ := new(big.Int).SetString("c5d2460186f7233c927e7db2dcc703c0e500b653ca82273b7bfad8045d85a470", 16)
+			return tb.BV(v, 256)
+		}
 		args := make([]*Term, k)
 		for i := 0; i < k; i++ {
 			args[i] = tb.Select(arr, tb.Bin(OpAdd, off, tb.BVu(uint64(i), 64)))
